@@ -10,12 +10,13 @@
    originated networks, session parameters / activation, provenance of routers
    and neighbors, independence of the semantics from sequence numbers, F15.
    frr_perm (session order), F15.
-   NOT proved (time): frr_out_exact, lists_defined, property_lists_subset_allowed
-   as theorems; their statements are kept below as comments and they are
+   lists_defined per neighbor block, shape of merged advertisements.
+   NOT proved (time): frr_out_exact, property_lists_subset_allowed, lists_defined
+   lifted to the whole configuration, as theorems; their statements are kept below as comments and they are
    EVALUATED in Coq on every generated case on the AST parsed from the real text
    (Corr/Run_Frr.v codes 3, 4) and by the Python oracle. *)
 From Coq Require Import String NArith Bool List Permutation Sorted.
-From Verif Require Import Model.FrrRender Model.FrrSem Proofs.FrrSortP Proofs.FrrP.
+From Verif Require Import Model.FrrRender Model.FrrSem Proofs.FrrSortP Proofs.FrrP Proofs.FrrListsP.
 Import ListNotations.
 Open Scope string_scope.
 
@@ -90,6 +91,21 @@ Proof. exact sort_s_perm. Qed.
    session's advertisement list is checked per case, Corr code 2, not proved.) *)
 Theorem C14_frr_perm : forall S S', wf_perm S -> Permutation S S' -> render S = render S'.
 Proof. exact render_perm. Qed.
+
+(* shape of the merged advertisement list of a neighbor (addToAdvertisements /
+   mergeAdvertisements): every requested advertisement is covered by an entry
+   with the same prefix text and family, the same local preference and at least
+   its communities *)
+Theorem C14_merged_advertisements_cover : forall f advs n, mk_neighbor f advs = Some n ->
+  nc_s n = f /\ forall a, In a advs -> exists y, In y (nc_advs n) /\ covers y (advc_of a).
+Proof. exact mk_neighbor_covers. Qed.
+
+(* lists_defined, per neighbor block: every prefix-list a route-map entry of a
+   neighbor references has a line (of that address family) in the same block *)
+Theorem C14_block_lists_defined : forall f advs n, mk_neighbor f advs = Some n ->
+  forall nm sq pm m st nx a name,
+    In (IRm nm sq pm m st nx) (map snd (neighbor_filters n)) -> In (a, name) m -> has_line n a name.
+Proof. exact block_lists_defined. Qed.
 
 (* F15: frr_out_exact is REFUTED for a neighbor peered by interface with
    DisableMP — the requested route is offered under no reading of the semantics *)
